@@ -89,6 +89,10 @@ def run(repo: Repo, tier: str) -> Report:
     ob("R-FORMULA", "gammastd", "cells that are not computed keep nodata (output initialised with nodata)",
        al is not None and norm_stmt(al).startswith("np.full(") and ast.unparse(al.args[1]) == nd,
        f"allocation: {norm_stmt(al) if al is not None else None}", sc.alloc_stmts.get(out, out))
+    from ..rules import no_early_exit
+    no_early_exit(rep, sc, FILE, "gammastd", "counting loop and cell loop",
+                  allowed={("continue", f"eq0[-1*elem[{x}] + {nd}]"), ("continue", f"eq0[-1*{nd} + {x}[{ix}]]")})
+    no_early_exit(rep, spi.sc["gammafit"], FILE, "gammafit", "accumulation over the calibration sample")
     # ---- 4. calibration slice
     fit_arg = f"gammafit[{x}[{cs}:{ce}]]"
     a_def = [d for d in sc.scalars[A] if "gammafit[" in d.rhs.key()][0]
